@@ -21,6 +21,8 @@ type termCase struct {
 	Pending []string     `json:"pending"` // exchanges left open at the cause
 	Script  gwsim.Script `json:"script"`
 	CauseAt int          `json:"cause_step"`
+	// Unreachable: the client's address is unreachable when the cause arrives (writes to it fail).
+	Unreachable bool `json:"unreachable,omitempty"`
 }
 
 func genTerm(t *rapid.T) termCase {
@@ -112,6 +114,11 @@ func genTerm(t *rapid.T) termCase {
 		causes = []string{"cancel", "cancel", "mqclose", "badmq"}
 	}
 	c.Cause = rapid.SampledFrom(causes).Draw(t, "cause")
+	if (c.Cause == "cancel" || c.Cause == "mqclose" || c.Cause == "badmq") && rapid.IntRange(0, 4).Draw(t, "unreachable") == 0 {
+		// the client has vanished and its address is unreachable: the farewell DISCONNECT cannot be sent
+		c.Unreachable = true
+		add(gwsim.Step{K: "snfail"})
+	}
 	if rapid.Bool().Draw(t, "pause") {
 		add(gwgen.Adv(int64(rapid.SampledFrom([]int{1, 99, 100, 101, 950}).Draw(t, "pause_ms"))))
 	}
@@ -148,7 +155,7 @@ func causeEvent(tr *gwsim.Trace, step int) (int, *gwsim.Event) {
 func TestC13(t *testing.T) {
 	vf.Check(t, vf.Prop[termCase]{
 		ID: "C13", Name: "clean-termination", Bubble: true,
-		Rule: "a session prefix (fresh / mid connect exchange with the broker silent or WILL*/AUTH outstanding / active with 0-4 operations some left pending: unacknowledged client QoS 1 publish, unacknowledged broker QoS 1/2 publish, unacknowledged gateway REGISTER / asleep without and with a running sleep pinger (sleep durations with a zero low or high byte included) / asleep and announcing a new sleep duration / after a wake-up / reconnected after a wake-up) followed, after a drawn pause around the poll interval, by one termination cause: gateway shutdown, client plain DISCONNECT, broker closing the connection, undecodable datagram, illegal packet while disconnected, undecodable MQTT bytes. Non-trivial = cause other than a clean DISCONNECT of an idle active session, or pending exchanges/pinger at the cause; distinct by (prefix, cause, pending, script).",
+		Rule: "a session prefix (fresh / mid connect exchange with the broker silent or WILL*/AUTH outstanding / active with 0-4 operations some left pending: unacknowledged client QoS 1 publish, unacknowledged broker QoS 1/2 publish, unacknowledged gateway REGISTER / asleep without and with a running sleep pinger (sleep durations with a zero low or high byte included) / asleep and announcing a new sleep duration / after a wake-up / reconnected after a wake-up) followed, after a drawn pause around the poll interval, by one termination cause: gateway shutdown, client plain DISCONNECT, broker closing the connection, undecodable datagram, illegal packet while disconnected, undecodable MQTT bytes; for the causes which need no datagram the client is, in a fifth of the cases, unreachable by then (writes to it fail); in a quarter of the active prefixes the broker has stopped reading and a write to it is pending. Non-trivial = cause other than a clean DISCONNECT of an idle active session, or pending exchanges/pinger at the cause; distinct by (prefix, cause, pending, script).",
 		Assumptions: []string{"bound: run returns within 100 ms (poll interval) + 1 ms of the cause on the virtual clock; sends are instantaneous on the in-memory links",
 			"the DISCONNECT-count clause is asserted in model states on which specification and implementation cannot disagree (never connected, active, asleep before the first wake-up); after a wake-up only termination, close and the goroutine census are asserted",
 			"the 'broker unreachable' cause needs a real dial and is checked by the separate part dial-failure"},
@@ -241,6 +248,10 @@ func checkTermination(which string, c termCase, tr *gwsim.Trace, r *vf.Result) {
 			if c.Cause == "disconnect" {
 				want = 1
 			}
+		}
+		if c.Unreachable {
+			want = -1 // nothing can be delivered
+			r.Label("client-unreachable")
 		}
 		if want >= 0 && n != want && !undec {
 			r.Fail(fmt.Sprintf("disconnect-count/%s/%s/want=%d,got=%d", c.Prefix, c.Cause, want, n), "client received %d DISCONNECT(s) after %s in state %s, expected %d\n%s", n, c.Cause, c.Prefix, want, tr.Dump(30))
